@@ -733,6 +733,20 @@ class Engine(ExprEval, NumpyModel, NumpyFuncs):
                 st.pc.append(f) if not self._mentions(f, vars_) else None
         g = mk_and(*guards)
         if is_forall:
+            trig = next((k.value for k in node.keywords if k.arg == "trig"), None)
+            if trig is not None:
+                # forall(..., trig=<term using the bound variables>): the fact is instantiated only where that term occurs
+                saved = st.env
+                st.env = dict(saved)
+                st.env.update(dict(zip(names, vars_)))
+                try:
+                    t = self.eval(st, trig)
+                finally:
+                    st.env = saved
+                fml = mk_implies(g, body)
+                if is_z3(fml) and not z3.is_true(fml):
+                    return z3.ForAll(list(vars_), zbool(fml), patterns=[to_z3(t)])
+                return fml
             return mk_forall(vars_, mk_implies(g, body))
         return mk_exists(vars_, mk_and(g, body))
 
@@ -1000,6 +1014,7 @@ class Engine(ExprEval, NumpyModel, NumpyFuncs):
                     cur = s.env[base_name]
                     if v.func.attr == "append":
                         new = self.list_concat(cur, Lst.of([args[0]], cur.elem))
+                        new.hist = ("append", cur)        # construction history (used by the list-sum spec function LSUM)
                         if new.elem is None:
                             new.elem = kind_of(args[0]) if is_numv(args[0]) else (("tuple", [("arr:" + x.kind) if isinstance(x, Arr) else kind_of(x) for x in args[0]]) if isinstance(args[0], tuple) else None)
                     elif v.func.attr == "extend":
